@@ -15,6 +15,7 @@ Streams of C02.
      method      plain
      target      hex, raw request target
      acceptenc   hex, Accept-Encoding value ("" = header absent)
+     listfmt     j | h : the listing is requested as JSON or as the default HTML page (same names)
      out         S<code> | R<code> TAB hexloc | F TAB enc TAB ino | L TAB hexnames | A TAB name=ino,… | H<code> TAB enc
   c02.clean  hexpath        out = hex of path.Clean(path) TAB hex of path.Clean("/"+path)
   c02.match  hexpath hexbase    out = 1|0   (httpserver.Path.Matches)
@@ -59,6 +60,8 @@ structure Case where
   ae : Bytes
 
 def parseCase : List String → Option Case
+  | [fsH, rootH, cfH, preH, brH, ixH, method, tgtH, aeH, _listfmt] =>
+    parseCase [fsH, rootH, cfH, preH, brH, ixH, method, tgtH, aeH]
   | [fsH, rootH, cfH, preH, brH, ixH, method, tgtH, aeH] => do
     let fs ← parseFS (← Driver.unhex fsH)
     let root ← Driver.unhex rootH
